@@ -11,6 +11,7 @@ CONSTANTS
   OblLockCover = TRUE
   OblDirtyRefused = TRUE
   OblIdempotent = TRUE
+  OblMarker = TRUE
   OblFence = FALSE
   OblP1Atomic = TRUE
   OblLockQuery = TRUE
